@@ -227,7 +227,12 @@ func (r *Run) arch386() {
 	if bin == "" || r.Worker != "" || r.Replay != "" || os.Getenv("VERIF_IS_386") != "" {
 		return
 	}
-	if strings.TrimSpace(os.Getenv("VERIF_386_WHEN")) == "thorough" && r.Tier != "thorough" {
+	switch when := strings.TrimSpace(os.Getenv("VERIF_386_WHEN")); {
+	case when == "thorough" && r.Tier != "thorough":
+		return
+	case when == "quick" && r.Tier != "quick":
+		// the thorough enumeration of this harness does not fit a 32-bit address space
+		r.Assume("GOARCH=386 pass: quick tier only (the thorough tier's bookkeeping exceeds a 32-bit address space)")
 		return
 	}
 	out := filepath.Join(os.Getenv("VERIF_WORK"), "arch386."+r.ID+".json")
